@@ -175,6 +175,7 @@ def run(pid: str, tier: str, seed: int) -> int:
 
         pool = mp.get_context("fork").Pool(min(16, os.cpu_count() or 1))
     ev = Evaluator(prop, pool)
+    t_gen0 = time.time()     # the generation budget starts after the Lean build and audit
 
     counts = Counter()
     dist = {}
@@ -255,7 +256,7 @@ def run(pid: str, tier: str, seed: int) -> int:
             if len(batch) >= (BATCH if tier == "thorough" else BATCH // 2):
                 consume(batch)
                 batch = []
-                if time.time() - t0 > budget or len(violations) > 20 or len(errors) > 5:
+                if time.time() - t_gen0 > budget or len(violations) > 20 or len(errors) > 5:
                     finished = False
                     break
         if batch:
